@@ -270,6 +270,64 @@ let c18_chk t =
   let (allowed, ok) = go [] ops views true true in
   "wf=" ^ sb allowed ^ " ok=" ^ sb ok
 
+(* ---------- C09 ---------- *)
+let hexval c = match c with
+  | '0'..'9' -> Char.code c - 48 | 'a'..'f' -> Char.code c - 87 | 'A'..'F' -> Char.code c - 55
+  | _ -> failwith "bad hex"
+let bytes_of_hex s =
+  if s = "-" then [] else
+    List.init (String.length s / 2) (fun i -> z_of_small (16 * hexval s.[2*i] + hexval s.[2*i+1]))
+let hex_of_bytes bs =
+  if bs = [] then "-" else String.concat "" (List.map (fun b -> Printf.sprintf "%02x" (int_of_z b)) bs)
+let rec parse_val t =
+  let k = tok t in
+  let body = String.sub k 1 (String.length k - 1) in
+  match k.[0] with
+  | 'N' -> VN (z_of_string body)
+  | 'B' -> VB (bytes_of_hex body)
+  | 'O' -> if body = "0" then VO None else VO (Some (parse_val t))
+  | 'L' -> let n = int_of_string body in VL (tlist t n parse_val)
+  | 'P' -> let a = parse_val t in let b = parse_val t in VP (a, b)
+  | 'T' -> let tag = int_of_string body in VT (nat_of_int tag, parse_val t)
+  | 'U' -> VU
+  | _ -> failwith ("bad val token " ^ k)
+(* wire <descid> <impl-roundtrip-ok> <hex> <tree>:
+   wt: tree is well typed; enc: model encoding = implementation bytes;
+   dec: model decoding of the implementation bytes = tree *)
+let c09_wire t =
+  let id = ti t in let implrt = ti t in
+  let hx = tok t in
+  let v = parse_val t in
+  let d = desc_by_id (nat_of_int id) in
+  let bs = bytes_of_hex hx in
+  let e = enc d v in
+  let dres = (match dec d bs with ROk (v', []) -> v' = v | _ -> false) in
+  "implrt=" ^ string_of_int implrt ^ " wt=" ^ sb (wt d v) ^ " enc=" ^ sb (e = bs) ^ " dec=" ^ sb dres
+let c09_decode t =
+  let id = ti t in let bs = bytes_of_hex (tok t) in
+  match read_from_buffer (desc_by_id (nat_of_int id)) bs with Some _ -> "ok" | None -> "err"
+let parse_svals t =
+  let n = ti t in
+  tlist t n (fun t -> match tok t with
+    | "N" -> SNull | "I" -> SInt (tz t) | "R" -> SReal (tz t)
+    | "T" -> SText (bytes_of_hex (tok t)) | "B" -> SBlob (bytes_of_hex (tok t))
+    | x -> failwith ("bad sval " ^ x))
+let fmt_sval = function
+  | SNull -> "N" | SInt i -> "I" ^ sz i | SReal b -> "R" ^ sz b
+  | SText b -> "T" ^ hex_of_bytes b | SBlob b -> "B" ^ hex_of_bytes b
+let c09_pack t =
+  let vs = parse_svals t in
+  match pack vs with
+  | None -> "abort"
+  | Some bs ->
+    let un = (match unpack bs with UOk vs' -> vs' = vs | _ -> false) in
+    hex_of_bytes bs ^ " unpack=" ^ sb un ^ " ok=" ^ sb (List.for_all sval_ok vs)
+let c09_unpack t =
+  match unpack (bytes_of_hex (tok t)) with
+  | UOk vs -> String.trim ("ok " ^ String.concat " " (List.map fmt_sval vs))
+  | UAbort -> "abort" | UMisuse -> "misuse"
+let c09_utf8 t = sb (utf8_valid (bytes_of_hex (tok t)))
+
 (* ---------- dispatch ---------- *)
 let handlers : (string * (toks -> string)) list ref = ref [
   "chunks", c08_chunks;
@@ -282,6 +340,11 @@ let handlers : (string * (toks -> string)) list ref = ref [
   "chk_needs", c04_chk;
   "members", c18_members;
   "chk_members", c18_chk;
+  "wire", c09_wire;
+  "decode", c09_decode;
+  "pack", c09_pack;
+  "unpack", c09_unpack;
+  "utf8", c09_utf8;
 ]
 
 let () =
